@@ -54,6 +54,8 @@ for i in range(max(20, S.budget // 5)):
         S.violation('C19:areas', 'bed area + free area != pipe area (or bed area != Ap*Cvs/Cvb)', input={'Dp': Dp, 'Cvs': Cvs})
     if abs(O1 + O2 - Op) > tol * Op or abs(Op - math.pi * Dp) > tol * Op or abs(O12 - Dp * math.sin(B)) > tol * Dp:
         S.violation('C19:perimeters', 'perimeters do not sum to the circumference or bed width != Dp sin(beta)', input={'Dp': Dp, 'Cvs': Cvs})
+    if abs(O1 - (math.pi - B) * Dp) > tol * Op or abs(O2 - B * Dp) > tol * Op:
+        S.violation('C19:arcs', f'free-wall arc {O1} != (pi - beta) Dp = {(math.pi - B) * Dp} or bed arc {O2} != beta Dp', input={'Dp': Dp, 'Cvs': Cvs})
     S.count(('geom', Dp, Cvs), 'geometry')
 S.sample({'Dp': Dp, 'Cvs': Cvs, 'areas': [Ap, A1, A2], 'perimeters': [Op, O1, O12, O2]})
 S.finish()
